@@ -355,11 +355,11 @@ fn gen_query(r: &mut Rng, with_views: bool) -> Q {
         5 => (format!("WITH q AS (SELECT {} AS k FROM {}) SELECT k FROM q", ta, t), vec![t, "q"]),
         6 => (format!("SELECT {} FROM {} UNION SELECT {} FROM {}", ta, t, ua, u), vec![t, u]),
         7 => (format!("SELECT d.k FROM (SELECT {} AS k FROM {}) AS d", ta, t), vec![t]),
-        8 => (format!("SELECT {}, (SELECT MAX({}) FROM {}) FROM {}", ta, ua, u, t), vec![t, u]),
+        8 => (format!("SELECT {}, EXISTS (SELECT 1 FROM {} WHERE {} = 2) FROM {}", ta, u, ua, t), vec![t, u]),
         9 => (format!("SELECT x.{} FROM {} AS x WHERE EXISTS (SELECT 1 FROM {} AS y WHERE y.{} = x.{})", ta, t, u, ua, ta), vec![t, u]),
-        10 => (format!("SELECT {}, COUNT(*) FROM {} GROUP BY {} HAVING {} IN (SELECT {} FROM {})", ta, t, ta, ta, ua, u), vec![t, u]),
+        10 => (format!("SELECT {} FROM {} GROUP BY {} HAVING {} IN (SELECT {} FROM {})", ta, t, ta, ta, ua, u), vec![t, u]),
         11 => (format!("SELECT '{}', {} FROM {}", lit, ta, t), vec![t]),
-        12 => (format!("SELECT {} FROM {} ORDER BY (SELECT MAX({}) FROM {}), {}", ta, t, ua, u, ta), vec![t, u]),
+        12 => (format!("SELECT {} FROM {} ORDER BY {} IN (SELECT {} FROM {}), {}", ta, t, ta, ua, u, ta), vec![t, u]),
         _ => (format!("SELECT {} FROM {} WHERE {} > 1", ta, t, ta), vec![t]),
     };
     Q { text, named: named.iter().map(|s| s.to_uppercase()).collect() }
@@ -1292,7 +1292,7 @@ fn main() {
 
     eprintln!("[c25] raw traces done {:?}", t_start.elapsed());
     // ---- 5. histories
-    let n_hist = args.n(150, 6000);
+    let n_hist = args.n(150, 2000);
     for i in 0..n_hist {
         // three of four histories stay inside the premise of the property (writes announced for
         // the table they change, base tables only); the others add views / cascades / rollbacks / DDL
@@ -1309,7 +1309,7 @@ fn main() {
             _ => "history_base_tables_only",
         };
         rep.count(class);
-        let len = if args.quick() { 36 } else { 80 };
+        let len = if args.quick() { 36 } else { 60 };
         run_history(&mut rng, &opts, len, &mut model, &mut rep, &format!("h{}", i));
         if i == 0 {
             rep.sample(serde_json::json!({"kind": "history", "class": class, "length": len}));
